@@ -112,6 +112,10 @@ def program(draw, nmax=8, kinds=('call', 'await', 'map', 'amap', 'wait'), immedi
     out = {'T': T, 'form': draw(st.sampled_from(['direct', 'direct', 'deco-opts'])), 'fdur': fdur, 'fails': fails,
            'prog': prog, 'foreign': foreign, 'shutdown': sd,
            'func_fail_kind': draw(st.sampled_from(['exc', 'exc', 'exc', 'cancel', 'base']))}
+    if not shutdown and draw(st.integers(0, 4)) == 0:
+        # a second, independent buffer on the same loop whose function is busy for a while: buffers do not share anything
+        out['other'] = {'at': draw(st.sampled_from([0, U, T / 2, T])), 'fdur': draw(st.sampled_from([0, T / 2, 2 * T, 5 * T])),
+                        'x': 777}
     if shutdown:
         waits = [o['at'] for o in prog if o['op'] == 'wait']
         if waits and draw(st.integers(0, 2)) == 0:
@@ -169,6 +173,9 @@ def valid(case):
             return False
         if not (0 <= case.get('shutdown_iters', 0) <= 8):
             return False
+        o = case.get('other')
+        if o is not None and (case.get('shutdown') is not None or o['at'] < 0 or o['fdur'] < 0):
+            return False
         if case.get('func_fail_kind', 'exc') not in ('exc', 'cancel', 'base'):
             return False
         return case.get('form', 'direct') in ('direct', 'deco-opts')
@@ -189,6 +196,8 @@ def simplify(case):
         yield dict(copy.deepcopy(case), form='direct')
     if case.get('func_fail_kind', 'exc') != 'exc':
         yield dict(copy.deepcopy(case), func_fail_kind='exc')
+    if case.get('other'):
+        yield dict(copy.deepcopy(case), other=None)
     for i, o in enumerate(case['prog']):
         if o['op'] in ('map', 'amap') and (o.get('fail_at') is not None or o.get('delay')):
             n = copy.deepcopy(case)
@@ -223,6 +232,18 @@ def state_at(hist, t):
             return 'waiting-to-retry'
         return 'timer-armed-or-collecting'
     return 'idle'
+
+
+def judge_other(case, hist):
+    """The second buffer (if any) got its one argument exactly once, timeout after it arrived."""
+    o = case.get('other')
+    if not o or hist['stop'] != 'finished' or case.get('shutdown') is not None:
+        return []
+    oc = hist.get('other_calls') or []
+    ok = len(oc) == 1 and oc[0]['args'] == [o['x']] and oc[0]['end'] is not None
+    if not ok:
+        return [V('other-buffer', f"a second buffer on the same loop, given {o['x']} at {o['at']}, saw the calls {oc!r}", 'other-buffer')]
+    return []
 
 
 def judge_delivery(case, hist):
